@@ -1,0 +1,150 @@
+//! Read-only introspection for the external verification harness.
+//! Compiled only with the `verif_hooks` cargo feature; nothing here changes behaviour unless
+//! `set_skip_optimize(true)` is called.
+use std::cell::Cell;
+use std::sync::atomic::{AtomicBool, Ordering};
+
+use crate::delimiters::Delimiters;
+use crate::parsing::ast::Node;
+use crate::parsing::lexer::{tokenize, verif_basic_tokenize};
+use crate::parsing::parser::Parser;
+use crate::parsing::{Chunk, Compiler};
+use crate::{Tera, Value};
+
+static SKIP_OPTIMIZE: AtomicBool = AtomicBool::new(false);
+
+thread_local! {
+    static FINAL_STACKS: Cell<Option<(usize, usize, usize)>> = const { Cell::new(None) };
+}
+
+/// When true `Chunk::optimize` returns immediately (templates added afterwards keep raw bytecode)
+pub fn set_skip_optimize(skip: bool) {
+    SKIP_OPTIMIZE.store(skip, Ordering::SeqCst);
+}
+
+pub(crate) fn skip_optimize() -> bool {
+    SKIP_OPTIMIZE.load(Ordering::SeqCst)
+}
+
+pub(crate) fn record_final_stacks(stack: usize, loops: usize, captures: usize) {
+    FINAL_STACKS.with(|c| c.set(Some((stack, loops, captures))));
+}
+
+/// (value stack, loop stack, capture stack) sizes at the end of the last successful top-level
+/// render on this thread; taking it resets it
+pub fn take_final_stacks() -> Option<(usize, usize, usize)> {
+    FINAL_STACKS.with(|c| c.take())
+}
+
+/// `Debug` of every (token, span), or of the error, before (`filtered = false`) or after the
+/// whitespace filter
+pub fn tokens(src: &str, delimiters: Delimiters, filtered: bool) -> Vec<Result<String, String>> {
+    let map = |r: Result<(crate::parsing::lexer::Token<'_>, crate::Span), crate::Error>| match r {
+        Ok((t, s)) => Ok(format!("{t:?}{s:?}")),
+        Err(e) => Err(format!("{:?}", e.kind)),
+    };
+    if filtered {
+        tokenize(src, delimiters).map(map).collect()
+    } else {
+        verif_basic_tokenize(src, delimiters).map(map).collect()
+    }
+}
+
+/// The `Display` s-expression of every top level expression node (what the parser snapshots
+/// use), `Debug` for other nodes
+pub fn parse_nodes(src: &str, delimiters: Delimiters) -> Result<Vec<String>, crate::Error> {
+    let out = Parser::new("", src, delimiters).parse()?;
+    Ok(out
+        .nodes
+        .iter()
+        .map(|n| match n {
+            Node::Expression(e) => format!("{e}"),
+            other => format!("{other:?}"),
+        })
+        .collect())
+}
+
+/// Bytecode listing of a source before the optimisation pass: (main, blocks sorted by name)
+pub fn compile_raw(
+    name: &str,
+    src: &str,
+    delimiters: Delimiters,
+) -> Result<(Vec<String>, Vec<(String, Vec<String>)>), crate::Error> {
+    let out = Parser::new(name, src, delimiters).parse()?;
+    let mut compiler = Compiler::new(name);
+    compiler.compile(out.nodes);
+    let mut blocks: Vec<(String, Vec<String>)> = compiler
+        .blocks
+        .iter()
+        .map(|(n, c)| (n.clone(), c.verif_dump()))
+        .collect();
+    blocks.sort();
+    Ok((compiler.chunk.verif_dump(), blocks))
+}
+
+/// Run the real optimisation pass on a chunk rebuilt from the template `name` of `tera`:
+/// listings (with spans) of its main chunk, blocks and components as stored
+pub fn listing(tera: &Tera, name: &str) -> Option<Vec<(String, Vec<String>)>> {
+    let tpl = tera.templates.get(name)?;
+    let mut out = vec![("main".to_string(), tpl.chunk.verif_dump())];
+    let mut blocks: Vec<_> = tpl.blocks.iter().collect();
+    blocks.sort_by(|a, b| a.0.cmp(b.0));
+    for (n, c) in blocks {
+        out.push((format!("block:{n}"), c.verif_dump()));
+    }
+    let mut comps: Vec<_> = tpl.components.iter().collect();
+    comps.sort_by(|a, b| a.0.cmp(b.0));
+    for (n, (_, c)) in comps {
+        out.push((format!("component:{n}"), c.verif_dump()));
+    }
+    Some(out)
+}
+
+fn chunk_id(c: &Chunk) -> String {
+    // A chunk is identified by the template it was compiled from and its listing
+    format!("{}#{:x}", c.name, fxhash(&c.verif_dump().join("\n")))
+}
+
+fn fxhash(s: &str) -> u64 {
+    let mut h: u64 = 0xcbf29ce484222325;
+    for b in s.bytes() {
+        h ^= b as u64;
+        h = h.wrapping_mul(0x100000001b3);
+    }
+    h
+}
+
+/// Everything `finalize_templates` derives, in a canonical (sorted) text form, one line per fact
+pub fn dump_derived(tera: &Tera) -> Vec<String> {
+    let mut out = Vec::new();
+    let mut names: Vec<&String> = tera.templates.keys().collect();
+    names.sort();
+    for name in names {
+        let tpl = &tera.templates[name];
+        out.push(format!(
+            "tpl {name:?} autoescape={} size={} extends={:?} parents={:?}",
+            tpl.autoescape_enabled, tpl.total_content_num_bytes, tpl.extends, tpl.parents
+        ));
+        let mut blocks: Vec<_> = tpl.block_lineage.iter().collect();
+        blocks.sort_by(|a, b| a.0.cmp(b.0));
+        for (b, lineage) in blocks {
+            let ids: Vec<String> = lineage.iter().map(chunk_id).collect();
+            let owners: Vec<&str> = lineage.iter().map(|c| c.name.as_str()).collect();
+            out.push(format!("lineage {name:?} {b:?} owners={owners:?} ids={ids:?}"));
+        }
+        let mut own: Vec<_> = tpl.blocks.keys().collect();
+        own.sort();
+        out.push(format!("blocks {name:?} {own:?}"));
+    }
+    let mut comps: Vec<_> = tera.components.iter().collect();
+    comps.sort_by(|a, b| a.0.cmp(b.0));
+    for (n, (_, c)) in comps {
+        out.push(format!("component {n:?} from={:?} id={}", c.name, chunk_id(c)));
+    }
+    out
+}
+
+/// `Ord::cmp`, `PartialOrd::partial_cmp` and `==` of two values exactly as the engine sees them
+pub fn compare(a: &Value, b: &Value) -> (std::cmp::Ordering, Option<std::cmp::Ordering>, bool) {
+    (a.cmp(b), a.partial_cmp(b), a == b)
+}
